@@ -16,6 +16,9 @@
      sql/compiler.py  _literal_execute_expanding_parameter_literal_binds -> [render_in_list],
                       [render_in_list_be]
      sql/compiler.py  _process_parameters_for_postcompile.process_expanding -> [process_expanding_be]
+     sql/compiler.py  _process_positional (qmark/format), _process_numeric and the numeric branch of
+                      _process_parameters_for_postcompile: the %(name)s passes over the finished text
+                                                               -> [pysub], [find_pyformat]
    Spec side (trusted transcriptions of the SQL dialects' lexical grammar; the SQLite one is validated
    against SQLite on every run):
      [lex_str]     one string literal: standard '' doubling; MySQL (sql_mode without
